@@ -716,6 +716,22 @@ Fixpoint settle (w : world) (sid : bytes) (fixed : bool) (fuel : nat) (s : st) :
               end
   end.
 
+(* ---- an honest peer that lets everything finish ----------------------------------------------------
+   run ready continuations, oldest first; when none is ready, complete the oldest outstanding future *)
+Fixpoint drive (w : world) (sid : bytes) (fixed : bool) (fuel : nat) (s : st) : st :=
+  match fuel with
+  | O => s
+  | S f =>
+      match first_ready (conts s) O with
+      | Some i => drive w sid fixed f (step w sid fixed s (Run i))
+      | None =>
+          match conts s with
+          | (Some fid, _) :: _ => drive w sid fixed f (step w sid fixed s (Complete fid))
+          | _ => s
+          end
+      end
+  end.
+
 (* ---- the repair ----------------------------------------------------------------------------------
    [fixed = true] models this patch of connection.py (SSHConnection._process_userauth_request):
 
